@@ -178,6 +178,56 @@ def part_illtyped(ctx, quick, recs, st):
     st["illtyped_cases"] = len(reqs)
 
 
+# ------------------------------------------------- (ii') every kind of Go syntax in a patch --
+# one well-formed snippet per statement / expression / declaration form of go/ast; each is used as the '+'
+# side, as a context line and as the '-' side of a patch (patch compilation and matching must cope with
+# every node kind, including those with optional children that are nil)
+SNIPPETS = [
+    "break", "continue", "fallthrough", "goto L", "break L", "continue L", "return", "return x, y", "L:\n\tfoo()", "L:", "go f()", "defer f()",
+    "select {\n\tcase <-ch:\n\t}", "select {}", "select {\n\tcase v, ok := <-ch:\n\t\t_ = v\n\tdefault:\n\t}", "switch x {\n\tcase 1, 2:\n\t}", "switch {\n\tdefault:\n\t}",
+    "switch x := y.(type) {\n\tcase int:\n\t\t_ = x\n\t}", "switch y.(type) {\n\t}", "for {\n\t}", "for i := range xs {\n\t}", "for range ch {\n\t}", "for i := 0; ; i++ {\n\t}",
+    "for ; x; {\n\t}", "if a {\n\t} else if b {\n\t} else {\n\t}", "if v := f(); v {\n\t}", "{\n\t}", "x++", "x--", "ch <- v", "var v int", "var v, w = 1, 2", "const c = 1", "type T int",
+    "type T = int", "x, y = y, x", "x := <-ch", "x += 1", "x &^= 1", "_ = x.(T)", "func() {}()", "var fn = func(a ...int) (r int) { return }", "_ = a[i]", "_ = a[i:j:k]", "_ = a[:]",
+    "_ = *p", "_ = &T{}", "_ = func(int) string(nil)", "_ = map[K]V{}", "_ = []int{1: 2}", "_ = [...]int{}", "_ = struct{ A int }{}", "_ = interface{ M() }(nil)",
+    "_ = (chan<- int)(nil)", "_ = (<-chan int)(nil)", "_ = <-ch", "_ = a.b.c", "f(xs...)", "_ = G[int](x)", "_ = G[int, string]{}", "_ = -x", "_ = !b", "_ = ^m", "_ = (x)", "_ = 'c'",
+    "_ = 1.5e3", "_ = 0x1p-2", "_ = 1i", "_ = `raw`", "_ = T{A: 1, B: T{}}", "_ = [2][]map[string]*int{}", "_ = func(a, b int, c ...string) (x, y int) { return }",
+]
+DECL_SNIPPETS = [
+    "func fn[T any](x T) T { return x }", "func (r *R) m() {}", "func (R) m(int) (int, error) { return 0, nil }", "type T[P any] struct{}", "type I interface{ ~int | ~string }",
+    "type I interface {\n\tM()\n\tE\n}", "type S struct {\n\tA, B int `tag`\n\tE\n\t*P\n}", "var (\n\ta = 1\n\tb = 2\n)", "const (\n\tA = iota\n\tB\n)", "var _ = 1", "func init() {}",
+    "func ext()",
+]
+KIND_SRC = ("package a\n\nfunc f(xs []int, ch chan int, x, y int) {\nL:\n\tfor {\n\t\tfoo()\n\t\tbreak L\n\t}\n\tfoo()\n\tswitch {\n\tcase x > 0:\n\t\tfoo()\n\t}\n}\n\n"
+            "func fn[T any](x T) T { return x }\n\nfunc (r *R) m() {}\n\ntype T int\n\nvar v int\n\nfunc init() {}\n")
+
+
+def part_kinds(ctx, quick, recs, st):
+    reqs, meta = [], {}
+
+    def add(rid, patch):
+        reqs.append(dict(id=rid, op="apply", patch=patch, name="s.go", src=KIND_SRC))
+        meta[rid] = dict(patch=patch, src=KIND_SRC)
+
+    def pre(sn, c):
+        return "".join(c + ln + "\n" for ln in sn.split("\n"))
+
+    for i, sn in enumerate(SNIPPETS):
+        add("kind-%d-plus" % i, "@@\n@@\n-foo()\n" + pre(sn, "+"))
+        add("kind-%d-ctx" % i, "@@\n@@\n" + pre(sn, " ") + "-foo()\n+bar()\n")
+        add("kind-%d-ctx2" % i, "@@\n@@\n-foo()\n+bar()\n" + pre(sn, " "))
+        add("kind-%d-minus" % i, "@@\n@@\n" + pre(sn, "-") + "+bar()\n")
+        add("kind-%d-both" % i, "@@\nvar x expression\n@@\n" + pre(sn, "-") + pre(sn, "+") + " foo(x)\n")
+    for i, sn in enumerate(DECL_SNIPPETS):
+        add("decl-%d-minus" % i, "@@\n@@\n" + pre(sn, "-") + "+var replaced = 1\n")
+        add("decl-%d-plus" % i, "@@\n@@\n-func init() {}\n" + pre(sn, "+"))
+        add("decl-%d-ctx" % i, "@@\n@@\n" + pre(sn, " "))
+    REQS.update({r["id"]: r for r in reqs})
+    for req, r in zip(reqs, api_batch(ctx, reqs, "kinds")):
+        o, d, s = outcome_of(r["err"])
+        recs.append(dict(id=req["id"], outcome=o, diag=d, status=s, augs=[], pred=[], what=meta[req["id"]]))
+    st["syntax_kind_cases"] = len(reqs)
+
+
 # ---------------------------------------------------------------- (iii) fuzz --
 def seeds():
     out = []
@@ -350,14 +400,15 @@ def run(ctx):
     recs, st = [], dict(states=0, transitions=0)
     part_tokens(ctx, quick, recs, st)
     part_illtyped(ctx, quick, recs, st)
+    part_kinds(ctx, quick, recs, st)
     part_fuzz(ctx, quick, recs, st)
     judge(ctx, recs, st)
     cov = dict(states=st["states"], transitions=st["transitions"], traces_validated_against_impl=len(recs), evaluations=len(recs),
                distinct_nontrivial=len({json.dumps(r["what"], sort_keys=True) for r in recs}), token_strings=st["token_strings"],
-               illtyped_cases=st["illtyped_cases"], fuzz_cases=st["fuzz_cases"], cli_cases=st["cli_cases"], outcomes=st["outcomes"],
+               illtyped_cases=st["illtyped_cases"], syntax_kind_cases=st["syntax_kind_cases"], fuzz_cases=st["fuzz_cases"], cli_cases=st["cli_cases"], outcomes=st["outcomes"],
                model_drift_cases=st["drift"], inputs_tried=len(recs), watchdog_timeouts_not_confirmed_alone=st.get("timeouts_not_confirmed", 0), exhaustive=False,
                samples=[{k: v for k, v in recs[0].items()}, {k: v for k, v in recs[-1].items()}],
-               rule="(i) every token string of length <=%d over %d token classes: termination of the scanner model under weak fairness (TLC) and the real augmenter / patch.Parse on the concretised string on both sides of a patch; (ii) %d slot templates x %d binding kinds x expression / identifier metavariable, on the '+' and on the '-' side; (iii) exploration: every prefix of sampled seed patches and seeded token / byte / line mutations of the testdata and example patches crossed with their inputs, a sample also through the command; distinct = distinct inputs" % (4 if quick else 5, 12, len(SLOTS), len(BINDINGS)))
+               rule="(i) every token string of length <=%d over %d token classes: termination of the scanner model under weak fairness (TLC) and the real augmenter / patch.Parse on the concretised string on both sides of a patch; (ii) %d slot templates x %d binding kinds x expression / identifier metavariable, on the '+' and on the '-' side; one snippet per statement / expression / declaration form of go/ast as '+' side, context line and '-' side; (iii) exploration: every prefix of sampled seed patches and seeded token / byte / line mutations of the testdata and example patches crossed with their inputs, a sample also through the command; distinct = distinct inputs" % (4 if quick else 5, 12, len(SLOTS), len(BINDINGS)))
     return ctx.finish("model_checking", cov, ASSUME)
 
 
